@@ -410,4 +410,151 @@ theorem mpq_div_2exp_zero_alloc_safe (s : St) (dn dd sn sd n : Nat) (hs : s.ok =
 example : (mpq_div_2exp exq 2 3 4 5 200).ok = true ∧ view ((mpq_div_2exp exq 2 3 4 5 200).h 2) = ⟨2, 0, []⟩ ∧
     view ((mpq_div_2exp exq 2 3 4 5 200).h 3) = ⟨3, 1, [1]⟩ := by decide
 
+/-! ## mpq_add, mpq_sub (mpq/aors.c) -/
+
+/-- mpq_add / mpq_sub, the arm for coprime denominators (aors.c:81-89; "probability 6/π²"), rop = (rn, rd) any variable —
+    for EVERY assignment of ids in which the fields of rop differ and NUM (rop) is not a denominator field (aors.c:87 stores
+    NUM (rop) and :88 reads both denominators afterwards).  gcd, tmp1, tmp2 live in TMP space (MPZ_TMP_INIT with
+    MIN (den sizes), |num1| + den2, |num2| + den1 limbs): `ok` includes that no callee reallocates them (`tmpKept`) — mpz_gcd
+    stores one limb, the two mpz_mul find exactly usize + vsize limbs.  Both fields of rop well formed, no variable other than
+    rop and the locals changed, values n1·d2 ± n2·d1 over d1·d2 (= `Mpq.aors` when gcd (d1, d2) = 1).
+    PARTIAL with respect to mpq_add/mpq_sub as a whole: the common-divisor arm (aors.c:53-80: five more callees on TMP
+    variables, the second gcd and both exits) is mirrored and tied (ops as6_add / as6_sub) but has no theorem yet; its statement
+    is the same with the values of `Mpq.aors`. -/
+theorem mpq_aors_coprime_alloc_safe_partial (isSub : Bool) (s : St) (rn rd an ad bn bd g t1 t2 t : Nat) (hs : s.ok = true)
+    (hop : ∀ x ∈ [rn, rd, an, ad, bn, bd], OWF (s.h x))
+    (hf : rn ≠ rd) (hna : rn ≠ ad) (hnb : rn ≠ bd)
+    (hfr : Fresh [g, t1, t2] [rn, rd, an, ad, bn, bd])
+    (hda : 0 < valOf s ad) (hdb : 0 < valOf s bd) (hco : Int.gcd (valOf s ad) (valOf s bd) = 1) :
+    let s' := mpq_aors 0 0 isSub s rn rd an ad bn bd g t1 t2 t
+    s'.ok = true ∧ OWF (s'.h rn) ∧ OWF (s'.h rd) ∧
+    (∀ x, x ≠ rn → x ≠ rd → x ∉ [g, t1, t2] → s'.h x = s.h x) ∧
+    valOf s' rn = (if isSub then valOf s an * valOf s bd - valOf s bn * valOf s ad
+                   else valOf s an * valOf s bd + valOf s bn * valOf s ad) ∧
+    valOf s' rd = valOf s ad * valOf s bd := by
+  intro s'
+  obtain ⟨hN, hS⟩ := hfr
+  simp only [List.nodup_cons, List.mem_cons, List.not_mem_nil, or_false, not_or, List.nodup_nil, and_true, not_false_eq_true] at hN
+  obtain ⟨⟨n12, n13⟩, n23⟩ := hN
+  have S1 := hS g (by simp); have S2 := hS t1 (by simp); have S3 := hS t2 (by simp)
+  simp only [List.mem_cons, List.not_mem_nil, or_false, not_or] at S1 S2 S3
+  obtain ⟨a1, a2, a3, a4, a5, a6⟩ := S1
+  obtain ⟨b1, b2, b3, b4, b5, b6⟩ := S2
+  obtain ⟨c1, c2, c3, c4, c5, c6⟩ := S3
+  have Orn := hop rn (by simp); have Ord := hop rd (by simp); have Oan := hop an (by simp)
+  have Oad := hop ad (by simp); have Obn := hop bn (by simp); have Obd := hop bd (by simp)
+  obtain ⟨eda, hda1⟩ := size_toNat s ad Oad hda
+  obtain ⟨edb, hdb1⟩ := size_toNat s bd Obd hdb
+  -- :43-45 the TMP variables
+  set A0 := min (s.SIZ ad).toNat (s.SIZ bd).toNat - 0 with hA0
+  set A1 := s.ABSIZ an + (s.SIZ bd).toNat with hA1
+  set A2 := s.ABSIZ bn + (s.SIZ ad).toNat with hA2
+  set s0 := tmpInit (tmpInit (tmpInit s g A0) t1 A1) t2 A2 with hs0
+  have ok0 : s0.ok = true := by simpa [s0] using hs
+  have F0 : ∀ x, x ≠ g → x ≠ t1 → x ≠ t2 → s0.h x = s.h x := by
+    intro x h1 h2 h3
+    rw [hs0, tmpInit_other _ _ _ h3, tmpInit_other _ _ _ h2, tmpInit_other _ _ _ h1]
+  have hg0 : s0.h g = ⟨0, 0, Buf.new A0⟩ := by
+    rw [hs0, tmpInit_other _ _ _ n13, tmpInit_other _ _ _ n12, tmpInit_same]
+  have ht10 : s0.h t1 = ⟨0, 0, Buf.new A1⟩ := by rw [hs0, tmpInit_other _ _ _ n23, tmpInit_same]
+  have ht20 : s0.h t2 = ⟨0, 0, Buf.new A2⟩ := by rw [hs0, tmpInit_same]
+  have Og : OWF (s0.h g) := by rw [hg0]; exact tmp_owf _ (by omega)
+  have Ot1 : OWF (s0.h t1) := by rw [ht10]; exact tmp_owf _ (by omega)
+  have Ot2 : OWF (s0.h t2) := by rw [ht20]; exact tmp_owf _ (by omega)
+  have I : ∀ x, x ≠ g → x ≠ t1 → x ≠ t2 → OWF (s.h x) → OWF (s0.h x) := fun x h1 h2 h3 h => by rw [F0 x h1 h2 h3]; exact h
+  have V0 : ∀ x, x ≠ g → x ≠ t1 → x ≠ t2 → valOf s0 x = valOf s x := by
+    intro x h1 h2 h3; unfold valOf; rw [F0 x h1 h2 h3]
+  have Ian := I an (Ne.symm a3) (Ne.symm b3) (Ne.symm c3) Oan
+  have Iad := I ad (Ne.symm a4) (Ne.symm b4) (Ne.symm c4) Oad
+  have Ibn := I bn (Ne.symm a5) (Ne.symm b5) (Ne.symm c5) Obn
+  have Ibd := I bd (Ne.symm a6) (Ne.symm b6) (Ne.symm c6) Obd
+  have Irn := I rn (Ne.symm a1) (Ne.symm b1) (Ne.symm c1) Orn
+  have Ird := I rd (Ne.symm a2) (Ne.symm b2) (Ne.symm c2) Ord
+  have van := V0 an (Ne.symm a3) (Ne.symm b3) (Ne.symm c3)
+  have vad := V0 ad (Ne.symm a4) (Ne.symm b4) (Ne.symm c4)
+  have vbn := V0 bn (Ne.symm a5) (Ne.symm b5) (Ne.symm c5)
+  have vbd := V0 bd (Ne.symm a6) (Ne.symm b6) (Ne.symm c6)
+  -- :52 the gcd of the denominators: 1, stored in the TMP block without reallocation
+  have W1 := mpz_gcd_wrote s0 g ad bd ok0 Og
+  have hgv : valOf (mpz_gcd s0 g ad bd) g = 1 := by rw [W1.val, vad, vbd, hco]; rfl
+  have hgk : ((mpz_gcd s0 g ad bd).h g).gen = 0 := by
+    rw [mpz_gcd_gen_keep s0 g ad bd ok0 Og (by
+      rw [vad, vbd, hco]
+      have : (natLimbs 1).length ≤ 1 := natLimbs_len_le 1 1 (by unfold B; norm_num)
+      simp only [St.ALLOC, hg0, Buf.new]; omega), hg0]
+  set s1 := mpz_gcd s0 g ad bd with hs1
+  have K1 : ∀ x, OWF (s0.h x) → OWF (s1.h x) := fun x h => W1.owf_of x h
+  -- :85-86 the cross products in TMP space
+  have hsz : ∀ x, x ≠ g → x ≠ t1 → x ≠ t2 → s1.SIZ x = s.SIZ x := fun x h1 h2 h3 => by
+    simp only [St.SIZ]; rw [W1.frame x h1, F0 x h1 h2 h3]
+  have W3 := mpz_mul_wrote s1 t1 an bd W1.ok (K1 t1 Ot1) (K1 an Ian) (K1 bd Ibd)
+  have hk3 : ((mpz_mul s1 t1 an bd).h t1).gen = 0 := by
+    rw [mpz_mul_gen_keep s1 t1 an bd (by
+      rw [hsz an (Ne.symm a3) (Ne.symm b3) (Ne.symm c3), hsz bd (Ne.symm a6) (Ne.symm b6) (Ne.symm c6)]
+      simp only [St.ALLOC, W1.frame t1 (Ne.symm n12), ht10, Buf.new, hA1, St.ABSIZ, St.SIZ] at edb ⊢
+      omega), W1.frame t1 (Ne.symm n12), ht10]
+  set s3 := mpz_mul s1 t1 an bd with hs3
+  have K3 : ∀ x, OWF (s0.h x) → OWF (s3.h x) := fun x h => W3.owf_of x (K1 x h)
+  have W4 := mpz_mul_wrote s3 t2 bn ad W3.ok (K3 t2 Ot2) (K3 bn Ibn) (K3 ad Iad)
+  have hk4 : ((mpz_mul s3 t2 bn ad).h t2).gen = 0 := by
+    rw [mpz_mul_gen_keep s3 t2 bn ad (by
+      have e1 : s3.SIZ bn = s.SIZ bn := by
+        simp only [St.SIZ]; rw [W3.frame bn (Ne.symm b5)]; exact hsz bn (Ne.symm a5) (Ne.symm b5) (Ne.symm c5)
+      have e2 : s3.SIZ ad = s.SIZ ad := by
+        simp only [St.SIZ]; rw [W3.frame ad (Ne.symm b4)]; exact hsz ad (Ne.symm a4) (Ne.symm b4) (Ne.symm c4)
+      rw [e1, e2]
+      simp only [St.ALLOC, W3.frame t2 (Ne.symm n23), W1.frame t2 (Ne.symm n13), ht20, Buf.new, hA2, St.ABSIZ, St.SIZ] at eda ⊢
+      omega), W3.frame t2 (Ne.symm n23), W1.frame t2 (Ne.symm n13), ht20]
+  set s4 := mpz_mul s3 t2 bn ad with hs4
+  have K4 : ∀ x, OWF (s0.h x) → OWF (s4.h x) := fun x h => W4.owf_of x (K3 x h)
+  have vt1 : valOf s4 t1 = valOf s an * valOf s bd := by
+    rw [W4.val_other t1 n23, W3.val, W1.val_other an (Ne.symm a3), W1.val_other bd (Ne.symm a6), van, vbd]
+  have vt2 : valOf s4 t2 = valOf s bn * valOf s ad := by
+    rw [W4.val, W3.val_other bn (Ne.symm b5), W3.val_other ad (Ne.symm b4), W1.val_other bn (Ne.symm a5),
+      W1.val_other ad (Ne.symm a4), vbn, vad]
+  -- :87 NUM (rop), :88 DEN (rop)
+  have W5 := zaors_wrote isSub s4 rn t1 t2 W4.ok (K4 rn Irn) (K4 t1 Ot1) (K4 t2 Ot2)
+  set s5 := zaors isSub s4 rn t1 t2 with hs5
+  have K5 : ∀ x, OWF (s0.h x) → OWF (s5.h x) := fun x h => W5.owf_of x (K4 x h)
+  have W6 := mpz_mul_wrote s5 rd ad bd W5.ok (K5 rd Ird) (K5 ad Iad) (K5 bd Ibd)
+  have V5 : ∀ x, x ≠ g → x ≠ t1 → x ≠ t2 → x ≠ rn → valOf s5 x = valOf s0 x := fun x h1 h2 h3 h4 => by
+    rw [W5.val_other x h4, W4.val_other x h3, W3.val_other x h2, W1.val_other x h1]
+  have e : s' = mpz_mul s5 rd ad bd := by
+    have q1 : tmpKept s1 g = s1 := tmpKept_eq _ _ hgk
+    have q2 : equal1 s1 g = (true, s1) := equal1_one s1 g W1.owf hgv
+    have q3 : tmpKept s3 t1 = s3 := tmpKept_eq _ _ hk3
+    have q4 : tmpKept s4 t2 = s4 := tmpKept_eq _ _ hk4
+    simp only [s', mpq_aors]
+    rw [← hA0, ← hA1, ← hA2, ← hs0, ← hs1, q1, q2]
+    simp only [Bool.not_true, Bool.false_eq_true, if_false]
+    rw [← hs3, q3, ← hs4, q4]
+  rw [e]
+  refine ⟨W6.ok, W6.owf_of rn W5.owf, W6.owf, ?_, ?_, ?_⟩
+  · intro x h1 h2 h3
+    simp only [List.mem_cons, List.not_mem_nil, or_false, not_or] at h3
+    obtain ⟨x1, x2, x3⟩ := h3
+    rw [W6.frame x h2, W5.frame x h1, W4.frame x x3, W3.frame x x2, W1.frame x x1, F0 x x1 x2 x3]
+  · rw [W6.val_other rn hf, W5.val, vt1, vt2]
+  · rw [W6.val, V5 ad (Ne.symm a4) (Ne.symm b4) (Ne.symm c4) (Ne.symm hna), V5 bd (Ne.symm a6) (Ne.symm b6) (Ne.symm c6) (Ne.symm hnb),
+      vad, vbd]
+
+
+/-- heap with a common denominator factor: op1 = (2, 3) = (B-1)/2, op2 = (4, 5) = 1/2, rop = (0, 1) = 5/3 -/
+def exa : St := ⟨fun i => if i = 0 then ⟨1, 0, ⟨1, [5]⟩⟩ else if i = 1 then ⟨1, 0, ⟨1, [3]⟩⟩
+                  else if i = 2 then ⟨1, 0, ⟨1, [B - 1]⟩⟩ else if i = 3 then ⟨1, 0, ⟨1, [2]⟩⟩
+                  else if i = 4 then ⟨1, 0, ⟨1, [1]⟩⟩ else ⟨1, 0, ⟨1, [2]⟩⟩, true⟩
+
+-- 6/35 + (-(14·B)/9), coprime denominators, into a third variable and in place into op2: (54 - 490·B)/315
+example : (mpq_add exm 0 1 2 3 4 5 6 7 8 9).ok = true ∧ valOf (mpq_add exm 0 1 2 3 4 5 6 7 8 9) 0 = 54 - 490 * (B : Int) ∧
+    valOf (mpq_add exm 0 1 2 3 4 5 6 7 8 9) 1 = 315 := by decide +kernel
+example : (mpq_sub exm 4 5 2 3 4 5 6 7 8 9).ok = true ∧ valOf (mpq_sub exm 4 5 2 3 4 5 6 7 8 9) 4 = 54 + 490 * (B : Int) := by
+  decide +kernel
+-- negative: `MPZ_TMP_INIT (gcd, MIN (..) - 1)`: mpz_gcd has to reallocate a TMP block
+example : (mpq_aors 1 0 false exm 0 1 2 3 4 5 6 7 8 9).ok = false := by decide +kernel
+-- the common-divisor arm (run only, no theorem yet): (B-1)/2 + 1/2 = (B/2)/1 — t = B needs the `+ 1` limb of
+-- `MPZ_TMP_INIT (t, MAX (..) + 1)`; without it mpz_add reallocates the TMP block
+example : (mpq_add exa 0 1 2 3 4 5 6 7 8 9).ok = true ∧ valOf (mpq_add exa 0 1 2 3 4 5 6 7 8 9) 0 = 2 ^ 63 ∧
+    valOf (mpq_add exa 0 1 2 3 4 5 6 7 8 9) 1 = 1 := by decide +kernel
+example : (mpq_aors 0 1 false exa 0 1 2 3 4 5 6 7 8 9).ok = false := by decide +kernel
+
 end Mpir.AllocSafe6
